@@ -1,11 +1,16 @@
 import DnsVerif.Lemmas.ApiMachines
 import DnsVerif.Lemmas.AddrEmit
+import DnsVerif.Lemmas.SoundMsg
+import DnsVerif.Lemmas.CompleteMsg
+import DnsVerif.Lemmas.EncSpecRR
+import DnsVerif.Lemmas.RTElem
 
-/-! # C15 — EDNS OPT record and its options (part 1: value domains of the options)
+/-! # C15 — EDNS OPT record and its options map exactly to RFC 6891/7830/7871/7873
 
-Part 1: the acceptance conditions of the three option bodies as constructors see them. Part 2 (record
-level: TTL word split/merge, payload in CLASS, owner root, option framing and round trip, from
-Lemmas/Sound*/Complete*/EncSpec*.lean) is appended when complete; until then PARTIAL. -/
+Part 1: the acceptance conditions of the three option bodies as constructors see them. Part 2: the TTL
+word split / merge for all 2^32 words, options accepted ⇔ the grammar `OptionAt` (RFC value domains),
+the OPT record in the grammar `RRAt.opt` (owner root, CLASS = payload size, TTL = ext-rcode / version / DO).
+Emission "so that they decode to the same option" is the OPT instance of the record round trip (C05 / C10). -/
 
 namespace C15
 
@@ -46,5 +51,45 @@ theorem padding_accept_iff (b : Bytes) (hb : b.length ≤ 65535) :
   cases hz : b.all (· == 0) <;> simp
 
 example : (∃ o d', decPadding { buf := [], off := 0, lim := 0, cost := 0 } = .ok (o, d')) := ⟨.padding 0, _, rfl⟩
+
+/-! ## The TTL word (RFC 6891 §6.1.3) -/
+
+/-- merge then split: every (extended RCODE, version, DO) is carried exactly -/
+theorem opt_ttl_merge_split (ext ver : Nat) (dnssec : Bool) (h1 : ext < 256) (h2 : ver < 256) :
+    optTtl (optTtlOf ext ver dnssec) = .ok (ext, ver, dnssec) := Complete.optTtl_of ext ver dnssec h1 h2
+
+/-- split then merge: a TTL word is accepted only if it is exactly the RFC layout of the returned fields
+(octet 0 = extended RCODE, octet 1 = version, octet 2 ∈ {0x00, 0x80} = DO, octet 3 = 0): set reserved
+flag bits are rejected -/
+theorem opt_ttl_split_merge {ttl ext ver : Nat} {dn : Bool} (h : optTtl ttl = .ok (ext, ver, dn)) :
+    ext < 256 ∧ ver < 256 ∧ (ttl < 2 ^ 32 → ttl = optTtlOf ext ver dn) := Sound.optTtl_ok h
+
+/-- the encoder's word is the grammar's word -/
+theorem opt_ttl_encoder (ext ver : Nat) (dnssec : Bool) (hv : ver < 256) : optTtlWord ext ver dnssec = optTtlOf ext ver dnssec :=
+  EncSpec.optTtl_eq dnssec hv
+
+/-! ## Options: accepted exactly for their RFC value domains -/
+
+theorem option_accept_sound {d d' : D} {o : EdnsOpt} (hd : D.Ok d) (h : decOption d = .ok (o, d')) :
+    OptionAt d.buf d.off o d'.off := (Sound.decOption_sound hd h).1
+
+theorem option_accept_complete {buf : Bytes} {off e lim c : Nat} {o : EdnsOpt} (h : OptionAt buf off o e)
+    (he : e ≤ lim) (hlb : lim ≤ buf.length) (hB : buf.length < 2 ^ 63) :
+    ∃ c', decOption { buf := buf, off := off, lim := lim, cost := c } = .ok (o, { buf := buf, off := e, lim := lim, cost := c' }) :=
+  Complete.decOption_complete h he hlb hB
+
+/-! ## The OPT record: positions of its fields, and emission -/
+
+/-- in an accepted OPT record the payload size is the CLASS field, extended RCODE / version / DO are octets
+0 / 1 and the top bit of octet 2 of the TTL field, octet 3 and the other bits of octet 2 are zero, the owner is the root -/
+theorem opt_fields_position {b : Bytes} {rr : RR} {d : D} (hb : b.length < 2 ^ 63) (h : decodeRR b = .ok (rr, d)) (hty : rr.ty = 41) :
+    ∃ e p x v dn opts, rr = RT.optRR p x v dn opts ∧ NameRefAt b false 0 [] e ∧ BytesAt b (e + 2) (beBytes 2 p) ∧
+      BytesAt b (e + 4) [UInt8.ofNat x, UInt8.ofNat v, if dn then 128 else 0, 0] := RT.decoded_opt_fields_position hb h hty
+
+/-- every well-formed OPT record (any payload, ext-rcode, version, DO, any well-formed options) is emitted so
+that it decodes to exactly the same record -/
+theorem option_roundtrip {rr : RR} {b : Bytes} {p x v : Nat} {dn : Bool} {opts : List EdnsOpt} (hwf : WfRR rr)
+    (hrd : rr.rd = .opt p x v dn opts) (h : encodeRR rr = .ok b) : ∃ d, decodeRR b = .ok (rr, d) ∧ d.off = b.length :=
+  RT.option_roundtrip hwf hrd h
 
 end C15
